@@ -301,8 +301,13 @@ structure SheppTable where
   noiseSeeded : Bool
 deriving Repr, DecidableEq
 
-/-- the current tree: `image += np.random.randn(*image.shape) * eps` on the global stream -/
-def sheppTableCurrent : SheppTable := ⟨true, true, false⟩
+def SheppTable.allTrue (t : SheppTable) : Bool :=
+  t.passesSeedToSens && t.sensSeedsWhenNotNone && t.noiseSeeded
+
+/-- the current tree: `image += np.random.RandomState(self.seed[idx]).randn(*image.shape) * eps` -/
+def sheppTableCurrent : SheppTable := ⟨true, true, true⟩
+/-- the pinned tree: `image += np.random.randn(*image.shape) * eps` on the global stream -/
+def sheppTablePinned : SheppTable := ⟨true, true, false⟩
 
 /-- `SheppLoganDataset.__getitem__`: (sensitivity offset, noise draws) and the global state
 afterwards.  `zeroSlice`: the phantom slice is identically zero (outer slices), the only case in
